@@ -3,8 +3,8 @@
    Every statement is quantified over the regex engine: valid p = "re.compile(p) succeeds",
    matches p s = "re.compile(p, IGNORECASE).search(s) finds a match". *)
 From Coq Require Import ZArith.
-From TL Require Import Lib.Base Lib.GenTypes Model.PlacementTypes Gen.PlacementGen Model.Placement Model.PlacementRun
-     Proofs.PlacementStrings Proofs.PlacementMain.
+From TL Require Import Lib.Base Lib.GenTypes Model.PlacementTypes Gen.PlacementGen Model.Placement Model.PlacementSource
+     Model.PlacementRun Proofs.PlacementStrings Proofs.PlacementMain Proofs.PlacementSource.
 
 (* 1. With the two remaining quirks off (the prefix test, the handling of dict allow items and the resolution of
       relative paths are the forms found in the source, for any value of their flags), for every regex engine, every configuration with non-empty directory keys
@@ -131,6 +131,43 @@ Print Assumptions C18_source_path_is_root_relative.
 Theorem C18_source_dict_allow_items_are_patterns : forall valid q a, v_aitem valid q a = vpat valid (aitem_pattern a).
 Proof. exact v_aitem_pattern. Qed.
 Print Assumptions C18_source_dict_allow_items_are_patterns.
+
+(* 10. Where the rule set comes from (config file auto-loaded by the Orchestrator, inline --rules merged into it,
+       wrapped section / known top-level keys / layout-file fall-back): with the two source quirks off the rule set in
+       force is the specified one - inline rules replace the file's, the documented {"allow", "deny"} form is
+       global_patterns, otherwise the file's section, otherwise none - and the whole pipeline yields the specified
+       outcome. *)
+Theorem C18_source_resolution_exact : forall sq s,
+  q_rules_toplevel_ignored sq = false -> q_rules_do_not_override_file sq = false -> src_ok s = true ->
+  resolve sq s = spec_resolve s.
+Proof. exact resolve_exact. Qed.
+Print Assumptions C18_source_resolution_exact.
+
+Theorem C18_source_outcome_exact : forall valid matches q sq s f,
+  q_global_on_covered q = false -> q_trailing_slash_depth q = false ->
+  q_rules_toplevel_ignored sq = false -> q_rules_do_not_override_file sq = false ->
+  src_ok s = true -> cfg_ok (spec_resolve s) = true ->
+  forget (run_src valid matches q sq s f) = spec_src valid matches s f.
+Proof. exact run_src_exact. Qed.
+Print Assumptions C18_source_outcome_exact.
+
+(* confinement (partial): the faithful resolution is exact when no inline rules are given (config file only, any
+   form) or when there is no config file and the inline rules are not in the {"allow", "deny"} form *)
+Theorem C18_source_resolution_outside_defects_partial : forall sq s,
+  src_ok s = true ->
+  (s_rules s = None \/ (s_file s = None /\ forall x, s_rules s <> Some (RToplevel x))) ->
+  resolve sq s = spec_resolve s.
+Proof. exact resolve_exact_outside_defects. Qed.
+Print Assumptions C18_source_resolution_outside_defects_partial.
+
+Theorem C18_source_outcome_outside_defects_partial : forall valid matches q sq s f,
+  src_ok s = true -> cfg_ok (spec_resolve s) = true ->
+  (s_rules s = None \/ (s_file s = None /\ forall x, s_rules s <> Some (RToplevel x))) ->
+  no_trailing_slash (spec_resolve s) = true ->
+  (spec_rule (relpath f) (dirs_of (spec_resolve s)) = None \/ (c_gdeny (spec_resolve s) = None /\ c_gpat (spec_resolve s) = None)) ->
+  forget (run_src valid matches q sq s f) = spec_src valid matches s f.
+Proof. exact run_src_exact_outside_defects. Qed.
+Print Assumptions C18_source_outcome_outside_defects_partial.
 
 (* non-vacuity: nested directory rules, deny over allow, an uncovered file judged by the global lists,
    a satisfied rule; the tables are re.search(.., IGNORECASE) on these strings *)
